@@ -3,6 +3,7 @@
 package mpb
 
 import (
+	"container/heap"
 	"reflect"
 	"time"
 
@@ -82,3 +83,67 @@ func VerifSetSink(f func(VerifEvent)) {
 // VerifSetTick installs a channel the auto refresh listener listens on
 // in addition to its ticker.
 func VerifSetTick(ch chan time.Time) { verifhook.SetTick(ch) }
+
+// VerifPQ exposes the heap manager's priority queue (priority_queue.go under
+// container/heap) to the differential "pq" family: pushes, ordered pops and the
+// heap manager's fix step, with the slice order and every bar's index field
+// readable after each step.
+type VerifPQ struct {
+	h    priorityQueue
+	bars map[int]*Bar
+	ids  map[*Bar]int
+}
+
+func NewVerifPQ() *VerifPQ {
+	return &VerifPQ{bars: map[int]*Bar{}, ids: map[*Bar]int{}}
+}
+
+func (v *VerifPQ) bar(id int) *Bar {
+	b, ok := v.bars[id]
+	if !ok {
+		b = &Bar{}
+		v.bars[id] = b
+		v.ids[b] = id
+	}
+	return b
+}
+
+// Push is the heap manager's h_push: heap.Push of the bar.
+func (v *VerifPQ) Push(id, priority int) {
+	b := v.bar(id)
+	b.priority = priority
+	heap.Push(&v.h, b)
+}
+
+// Pop is one step of the ordered iteration: heap.Pop.
+func (v *VerifPQ) Pop() (id, priority int, ok bool) {
+	if v.h.Len() == 0 {
+		return 0, 0, false
+	}
+	b := heap.Pop(&v.h).(*Bar)
+	return v.ids[b], b.priority, true
+}
+
+// Fix is the heap manager's h_fix step.
+func (v *VerifPQ) Fix(id, priority int, lazy bool) {
+	b := v.bar(id)
+	if b.index < 0 {
+		return
+	}
+	b.priority = priority
+	if !lazy {
+		heap.Fix(&v.h, b.index)
+	}
+}
+
+// Snapshot returns the slice (ids and priorities in slice order) and the index field of the given bars.
+func (v *VerifPQ) Snapshot(of []int) (ids, prios, idx []int) {
+	for _, b := range v.h {
+		ids = append(ids, v.ids[b])
+		prios = append(prios, b.priority)
+	}
+	for _, id := range of {
+		idx = append(idx, v.bar(id).index)
+	}
+	return
+}
